@@ -1,9 +1,9 @@
 #!/bin/sh
-# run a property's check against a seeded change: tools/seeded.sh <seeded-dir> [tier]
+# run a property's check against a seeded change: tools/seeded.sh <seeded-dir> [tier] [property-override]
 # applies <dir>/patch.diff to /repo, runs the check named in <dir>/meta.json, and always reverts /repo.
 set -u
 dir="$1"; tier="${2:-quick}"
-prop=$(python3 -c "import json,sys; print(json.load(open('$dir/meta.json'))['property'])")
+prop="${3:-$(python3 -c "import json,sys; print(json.load(open('$dir/meta.json'))['property'])")}"
 cd /verif
 if ! git -C /repo diff --quiet; then echo "refusing: /repo has uncommitted changes"; exit 2; fi
 git -C /repo apply "$dir/patch.diff" || { echo "patch does not apply"; exit 2; }
